@@ -65,7 +65,10 @@ func encodeModel(m model) map[string]interface{} {
 }
 
 func splitHarness(name string) (pkgPath, fn string) {
-	i := strings.LastIndexByte(name, '.')
+	i := strings.IndexByte(name, '.')
+	if j := strings.Index(name, ".Verif"); j >= 0 {
+		i = j
+	}
 	dir := name[:i]
 	if dir == "" {
 		return repoMod, name[i+1:]
@@ -94,7 +97,11 @@ func replayModel(pkgPath, fn string, mdl map[string]interface{}, tier string, ra
 	}
 	callExpr := fn + "()"
 	if k := strings.IndexByte(fn, '#'); k >= 0 {
-		callExpr = fn[:k] + "(" + fn[k+1:] + ")"
+		arg := fn[k+1:]
+		if c := strings.IndexByte(arg, ':'); c >= 0 {
+			arg = arg[:c]
+		}
+		callExpr = fn[:k] + "(" + arg + ")"
 	}
 	testSrc := fmt.Sprintf("package %s\n\nimport \"testing\"\n\nfunc TestVerifReplay(t *testing.T) {\n\t%s\n\tt.Log(\"VERIF-REACHED\", verifReached)\n}\n", pkgName, callExpr)
 	ov[filepath.Join(repoDir, dir, "zz_verif_replay_test.go")] = []byte(testSrc)
@@ -123,6 +130,9 @@ func replayModel(pkgPath, fn string, mdl map[string]interface{}, tier string, ra
 	cmd.Dir = filepath.Join(verifRoot, "engine")
 	cmd.Env = append(os.Environ(), "GOFLAGS=-mod=mod", "GOPROXY=off", "GOSUMDB=off", "GOTOOLCHAIN=local",
 		"VERIF_MODEL="+mPath, "VERIF_TIER="+tier)
+	if race {
+		cmd.Env = append(cmd.Env, "VERIF_RACE=1", "CGO_ENABLED=1")
+	}
 	var buf bytes.Buffer
 	cmd.Stdout = &buf
 	cmd.Stderr = &buf
@@ -155,7 +165,8 @@ func replayModel(pkgPath, fn string, mdl map[string]interface{}, tier string, ra
 
 func replayFailure(w *world, f *failure) (bool, string) {
 	pkgPath, fn := splitHarness(f.Harness)
-	outcome, out := replayModel(pkgPath, fn, encodeModel(f.Model), currentTier, false)
+	race := f.Kind == "write" && strings.HasPrefix(f.Tag, "C05")
+	outcome, out := replayModel(pkgPath, fn, encodeModel(f.Model), currentTier, race)
 	return outcomeConfirms(f.Kind, f.Tag, outcome), outcome + "\n" + tailLines(out, 25)
 }
 
@@ -164,7 +175,10 @@ func outcomeConfirms(kind, tag, outcome string) bool {
 	case "assert":
 		return outcome == "assert:"+tag
 	case "write":
-		return strings.HasPrefix(outcome, "assert:") || outcome == "race"
+		if strings.HasPrefix(tag, "C05") {
+			return outcome == "race"
+		}
+		return strings.HasPrefix(outcome, "assert:") && strings.Contains(outcome, strings.SplitN(tag, ":", 2)[0])
 	default: // panic, bounds, nil-deref, ...
 		return outcome == "panic"
 	}
